@@ -86,3 +86,10 @@ Theorem C14_own_keys_unaffected : forall (V : Type) w_other st k,
   ~ In k (keys V w_other) -> apply_writes V w_other st k = st k.
 Proof. exact own_keys_unaffected. Qed.
 Print Assumptions C14_own_keys_unaffected.
+
+Example C14_sides_premise_sat :
+  let a := Leaf (nl_of_bits (repeat false 256)) [] 1 in
+  let b := Leaf (nl_of_bits (true :: repeat false 255)) [] 1 in
+  wf_sub (Node nl_root 1 1 (Some a) (Some b)) = true /\
+  node_labels a <> [] /\ node_labels b <> [].
+Proof. exact sides_premise_sat. Qed.
